@@ -302,10 +302,14 @@ class Violation:
 
 
 def load_known() -> list[dict]:
+    out = []
     p = VERIF / "known_findings.json"
-    if not p.exists():
-        return []
-    return json.loads(p.read_text()).get("findings", [])
+    if p.exists():
+        out += json.loads(p.read_text()).get("findings", [])
+    # per-property fragments written by builders before integration (merged into the file above when integrated)
+    for q in sorted((VERIF / "known_findings.d").glob("*.json")) if (VERIF / "known_findings.d").is_dir() else []:
+        out += json.loads(q.read_text()).get("findings", [])
+    return out
 
 
 def rng_for(seed: int, *parts) -> random.Random:
